@@ -153,25 +153,45 @@ def run(ctx):
                     ctx.anchor_fail('KEY-PERSIST', MGR + '.hmac_key')
                     continue
                 e = b.expr(op)
-                # buffers the key is built from (byte containers in the backward slice of the field)
-                bufs = set(l for l in b.backward_locals([op['p'][0]] if 'p' in op else [])
-                           if re.search(r'Vec<u8>|\[u8; \d+\]', b.local_ty(l)))
-                rng = []
-                filed = []
-                for cs in b.calls():
-                    al = [a['p'][0] for a in cs.args if 'p' in a]
-                    if not (b.backward_locals(al) & bufs):
-                        continue
-                    if re.search(r'(RngCore>::fill_bytes|RngCore::fill_bytes|Rng>::fill|Rng::fill|RngCore>::try_fill_bytes|getrandom)', cs.callee + cs.declared):
-                        rng.append(cs)
-                    if re.search(r'(Read>::read_exact|Read::read_exact|fs::read|Read>::read_to_end|fs::write|Write>::write_all|Write::write_all)', cs.callee + cs.declared):
-                        filed.append(cs)
-                viol = bool(rng) and not filed
-                fromfile = e.mentions_call(r'fs::read|read_exact|read_to_end|load_.*key|derive')
-                ctx.ob('KEY-PERSIST', 'hmac_key@%s' % b.id, not viol or fromfile is not None, b.where(s.get('ln')),
-                       ('the record-authentication key is filled by %s and never read from or written to a file: records written by an '
-                        'earlier process can never verify after a restart' % rng[0].short()) if viol else
-                       'the record-authentication key does not come from per-process randomness only (%s)' % e.brief(160), entry=b.root)
+                # where the key bytes are produced: this body and the local helpers its expression calls
+                scope = [b]
+                for x in e.walk():
+                    if x.k == 'call' and prog.has_body(x.a):
+                        cb = prog.async_body(x.a)
+                        if cb not in scope:
+                            scope.append(cb)
+
+                def locs(bd, a):
+                    return set(x.a for x in bd.expr(a).walk() if x.k in ('local', 'let', 'param') and isinstance(x.a, int))
+                rng, written, read = [], [], []
+                for sb in scope:
+                    rbufs = set()
+                    for cs in sb.calls():
+                        if re.search(r'(RngCore>::fill_bytes|RngCore::fill_bytes|Rng>::fill|Rng::fill|RngCore>::try_fill_bytes|getrandom)', cs.callee + cs.declared):
+                            rng.append(cs)
+                            for a in cs.args[1:]:
+                                rbufs |= locs(sb, a)
+                                if 'p' in a:
+                                    rbufs |= sb.backward_locals([a['p'][0]])
+                    for cs in sb.calls():
+                        if re.search(r'Write>?::write_all$|fs::write$', cs.callee) or re.search(r'Write>?::write_all$|fs::write$', cs.declared):
+                            al = set()
+                            for a in cs.args:
+                                al |= locs(sb, a)
+                                if 'p' in a:
+                                    al |= sb.backward_locals([a['p'][0]])
+                            if al & rbufs and F.try_edges(sb, cs) is not None:
+                                written.append(cs)
+                        if re.search(r'Read>?::read_exact$|Read>?::read_to_end$|fs::read$', cs.callee) or re.search(r'Read>?::read_exact$|Read>?::read_to_end$|fs::read$', cs.declared):
+                            read.append(cs)
+                viol = bool(rng) and not (written and read)
+                ctx.ob('KEY-PERSIST', 'hmac_key@%s' % b.id, not viol, b.where(s.get('ln')),
+                       ('the record-authentication key is filled by %s and %s: records written by an earlier process can never verify after a restart' % (
+                           rng[0].short(), 'never written to a file with its error checked' if not written else 'no code path reads a stored key back'))
+                       if viol else
+                       ('the key is fresh randomness only on first use: it is written to a file (%s, error propagated) and read back (%s) in %s' % (
+                           written[0].short(), read[0].short(), ', '.join(sb.id.rsplit('::', 1)[-1] for sb in scope[1:]) or b.id)
+                        if rng else 'the key does not come from per-process randomness (%s)' % e.brief(160)), entry=b.root)
     ctx.floor('KEY-PERSIST', 1)
 
     # ------------------------------------------------------------------ 4. canonical checksum input
@@ -186,20 +206,54 @@ def run(ctx):
             if hdr is None:
                 continue
             n_cmp += 1
-            # the digest: finalize(hasher) ; find update(hasher, data)
-            hashers = set(x.a for x in digest.walk() if x.k == 'local')
-            fin = digest.mentions_call(r'Digest>::finalize$|Digest::finalize$|FixedOutput')
-            data_exprs = []
-            for u in b.calls(r'Digest>::update$|Digest::update$|Update>::update$'):
-                h = b.expr(u.args[0])
-                if any(x.k == 'local' and x.a in hashers for x in h.walk()) or True:
-                    data_exprs.append((u, b.expr(u.args[1])))
-            reser = [(u, d) for u, d in data_exprs if d.mentions_call(r'postcard::to_(stdvec|allocvec|vec)$|serde_json::to_vec|bincode::serialize')]
-            okc = bool(data_exprs) and not reser
+            # the digest: finalize(hasher) here, or returned by a local callee (load_snapshot hashes what it read)
+            srcs = []   # (body, update call, data expr)
+
+            def collect(bd, ex, depth):
+                if ex.mentions_call(r'Digest>::finalize$|Digest::finalize$|FixedOutput') is not None:
+                    for u in bd.calls(r'Digest>::update$|Digest::update$|Update>::update$'):
+                        srcs.append((bd, u, bd.expr(u.args[1])))
+                    return
+                if depth <= 0:
+                    return
+                for x in ex.walk():
+                    if x.k == 'call' and prog.has_body(x.a):
+                        cb = prog.async_body(x.a)
+                        for u in cb.calls(r'Digest>::update$|Digest::update$|Update>::update$'):
+                            srcs.append((cb, u, cb.expr(u.args[1])))
+            collect(b, digest, 2)
+            reser = [(u, d) for bd, u, d in srcs if d.mentions_call(r'postcard::to_(stdvec|allocvec|vec)$|serde_json::to_vec|bincode::serialize')]
+            # positive evidence: the hashed buffer is one a file read wrote into
+            fromfile = False
+            for bd, u, d in srcs:
+                dl = set(x.a for x in d.walk() if x.k in ('local', 'let') and isinstance(x.a, int))
+                for rc in bd.calls(r'Read>::read_to_end$|Read::read_to_end$|Read>::read_exact$|Read::read_exact$|fs::read$'):
+                    al = set()
+                    for a in rc.args:
+                        for x in bd.expr(a).walk():
+                            if x.k in ('local', 'let') and isinstance(x.a, int):
+                                al.add(x.a)
+                    if al & dl:
+                        fromfile = True
+            # ... and it is the very buffer the state map is decoded from (not, say, the header bytes)
+            covers_state = False
+            for bd, u, d in srcs:
+                dl = set(x.a for x in d.walk() if x.k in ('local', 'let') and isinstance(x.a, int))
+                for dc in bd.calls(r'postcard::from_bytes$|serde_json::from_slice$|bincode::deserialize$'):
+                    dst_ty = bd.local_ty(dc.dest[0]) if dc.dest else ''
+                    if 'HashMap' not in dst_ty:
+                        continue
+                    al = set(x.a for a in dc.args for x in bd.expr(a).walk() if x.k in ('local', 'let') and isinstance(x.a, int))
+                    if al & dl:
+                        covers_state = True
+            okc = bool(srcs) and not reser and fromfile and covers_state
             ctx.ob('CANONICAL', 'checksum@%s' % b.id, okc, cs.where(),
                    ('the digest compared with header.checksum is computed over a re-serialisation (%s) of the decoded map: HashMap '
                     'iteration order is not canonical, so a valid snapshot fails its own checksum' % reser[0][1].brief(120)) if reser else
-                   'the digest compared with header.checksum is computed over %s' % (data_exprs[0][1].brief(120) if data_exprs else 'nothing found'),
+                   ('the digest compared with header.checksum is computed in %s over %s, a buffer filled by a file read' % (
+                       srcs[0][0].id.rsplit('::', 2)[-2] if '::' in srcs[0][0].id else srcs[0][0].id, srcs[0][2].brief(120)) if okc else
+                    'the digest compared with header.checksum is not computed over the file bytes the state is decoded from (%s)' % (
+                        srcs[0][2].brief(120) if srcs else 'no hash input found')),
                    entry=b.root)
     ctx.floor('CANONICAL', 2)
 
@@ -212,11 +266,14 @@ def run(ctx):
             if j is not None and len(j.b) > 1:
                 active_tpl = L.string_template(prog, b, j.b[1])
     rot = prog.body(WW + '::rotate')
-    for cs in rot.calls(r'^std::fs::rename$'):
-        p = rot.expr(cs.args[1])
-        j = p.mentions_call(r'Path::with_file_name$|Path::join$')
-        if j is not None and len(j.b) > 1:
-            rotated_tpl = L.string_template(prog, rot, j.b[1])
+    # every name the rotated log can get: all with_file_name / join results in rotate (the name may be
+    # recomputed in a loop until unused), each of which must sort on the right side of the active name
+    rotated_tpls = []
+    for cs in rot.calls(r'Path::with_file_name$|Path::join$|PathBuf::join$'):
+        if len(cs.args) > 1:
+            t = L.string_template(prog, rot, rot.expr(cs.args[1]))
+            rotated_tpls.append(t)
+    rotated_tpl = rotated_tpls[0] if rotated_tpls and all(t is not None for t in rotated_tpls) else None
     # sort direction used by find_wal_files
     fw = None
     for b in bodies:
@@ -237,17 +294,71 @@ def run(ctx):
         ctx.ob('REPLAY-ORDER', 'wal-name-scheme', False, FILE,
                'cannot determine the log file-name scheme / sort direction (active=%s rotated=%s ascending=%s): fail closed' % (active_tpl, rotated_tpl, asc))
     else:
-        a0 = active_tpl[0][1] if active_tpl[0][0] == 'lit' else ''
-        r0 = rotated_tpl[0][1] if rotated_tpl[0][0] == 'lit' else ''
-        # the active log holds the newest records: it must be replayed last
-        decided = bool(a0) and bool(r0) and not a0.startswith(r0) and not r0.startswith(a0)
-        if asc:
-            good = decided and a0 > r0
-        else:
-            good = decided and a0 < r0
+        def is_int_arg(e):
+            e = e.strip() if e is not None else None
+            while e is not None and e.k in ('ref', 'deref'):
+                e = e.a
+            if e is not None and e.k in ('local', 'let', 'param') and isinstance(e.a, int):
+                return re.fullmatch(r'u(8|16|32|64|128|size)', rot.local_ty(e.a)) is not None
+            return False
+
+        def order(active, rotated):
+            """-1: every rotated name sorts before the active name, +1: after, None: cannot tell.
+            Byte-wise comparison as OsStr::cmp does; an unsigned integer argument renders as 1+ decimal digits."""
+            A = ''.join(v for k, v in active) if all(k == 'lit' for k, v in active) else None
+            if A is None:
+                return None
+            i = 0
+            for k, v in rotated:
+                if k == 'lit':
+                    for ch in v:
+                        if i >= len(A):
+                            return +1           # active is a proper prefix
+                        if A[i] != ch:
+                            return -1 if ch < A[i] else +1
+                        i += 1
+                else:
+                    if not is_int_arg(v):
+                        return None
+                    if i >= len(A):
+                        return +1
+                    if A[i] > '9':
+                        return -1
+                    if A[i] < '0':
+                        return +1
+                    return None                 # active continues with a digit: depends on the value
+            return None if i == len(A) else -1  # identical names / rotated is a proper prefix
+
+        rels = [order(active_tpl, t) for t in rotated_tpls]
+        want = -1 if asc else +1
+        good = bool(rels) and all(r == want for r in rels)
+
+        def render(t):
+            return ''.join(v if k == 'lit' else '<n>' for k, v in t)
         ctx.ob('REPLAY-ORDER', 'wal-name-scheme', good, rot.where(),
-               'logs are replayed in %s file-name order; active log is named %r..., rotated logs %r...: the active (newest) log is replayed %s' % (
-                   'ascending' if asc else 'descending', a0, r0, 'last' if good else 'BEFORE the rotated (older) logs, so stale values win'))
+               'logs are replayed in %s file-name order; active log is named %r, rotated logs %s: the active (newest) log is replayed %s' % (
+                   'ascending' if asc else 'descending', render(active_tpl), ', '.join(repr(render(t)) for t in rotated_tpls),
+                   'last' if good else ('BEFORE the rotated (older) logs, so stale values win' if all(r is not None for r in rels)
+                                        else 'in an order that cannot be determined from the names (fail closed)')))
+        # rotated names among themselves: all sites use one template (decimal seconds, equal width until 2286)
+        same = len(set(render(t) for t in rotated_tpls)) == 1
+        ctx.ob('REPLAY-ORDER', 'rotated-names-one-scheme', same, rot.where(),
+               'every rotated-log name in rotate() follows one template (%s)' % ', '.join(sorted(set(render(t) for t in rotated_tpls))))
+    # the rename that rotates the active log must not land on an existing rotated log (second-granular names):
+    # the destination is dominated by the false edge of an exists()/try_exists() test on it
+    for cs in rot.calls(r'^std::fs::rename$'):
+        okx = False
+        why = 'no existence test on the destination dominates the rename'
+        for c in F.dominating_conds(rot, cs.bb):
+            if c.kind == 'bool' and c.expr.k == 'call' and re.search(r'Path::exists$|Path::try_exists$|fs::exists$', c.expr.a) and not c.truth:
+                dst = rot.expr(cs.args[1]).strip().show()
+                tested = c.expr.b[0].strip().show() if c.expr.b else ''
+                if tested == dst or (dst and tested and (dst in tested or tested in dst)):
+                    okx = True
+                    why = 'the rename is reached only on the not-exists edge of a test of its destination'
+        ctx.ob('ROTATE-UNIQUE', 'rotate-target-unused', okx, cs.where(),
+               'rotated names carry a one-second timestamp; %s' % why, entry=rot.root)
+    ctx.floor('ROTATE-UNIQUE', 1)
     # newest snapshot first: find_snapshots sorts descending and recover_from_snapshot must not reverse it
     fs_desc = None
     for b in bodies:
@@ -271,7 +382,7 @@ def run(ctx):
                    'find_snapshots sorts %s and recovery iterates it %s: the %s snapshot is tried first' % (
                        'newest-first' if fs_desc else 'oldest-first', 'reversed' if rev else 'in order',
                        'newest' if newest_first else 'OLDEST (logs covered by newer snapshots are already deleted)'), entry=b.root)
-    ctx.floor('REPLAY-ORDER', 2)
+    ctx.floor('REPLAY-ORDER', 3)
 
     # ------------------------------------------------------------------ 6. counter writers
     ncw = 0
@@ -311,6 +422,91 @@ def run(ctx):
                            'counter = %s unguarded; %s' % (vs.brief(), 'this body is only called from `recover` before the log replay' if pre else
                                                            'and not provably before the replay: the counter can move backwards'))
     ctx.floor('COUNTER', 5)
+
+    # ------------------------------------------------------------------ 7. the id stamped into the snapshot header
+    # The header's last_transaction_id becomes the counter after a restart from that snapshot, so it must be read from a
+    # location that never moves backwards while the process runs: the transaction_counter mutex (its writers are the
+    # COUNTER obligations above), or a field all of whose writers outside start-up are raise-only and whose owner is
+    # never overwritten as a whole.
+    HDR = 'persistent_state::SnapshotHeader'
+    startup = (MGRT + '::new', WW + '::new', MGR + '::new')
+    nh = 0
+    for b in bodies:
+        if not b.root.startswith(MGRT + '::checkpoint'):
+            continue
+        for bi, si, st in b.stmts():
+            r = st['r']
+            if not (r['k'] == 'agg' and r.get('adt') == HDR):
+                continue
+            op = L.agg_field_operand(st, 'last_transaction_id')
+            if op is None:
+                ctx.anchor_fail('HEADER-ID', HDR + '.last_transaction_id')
+                continue
+            nh += 1
+            e = b.expr(op)
+            for _i in range(4):
+                e2 = L._tuple_proj(e)
+                while e2.k == 'let':
+                    e2 = e2.c
+                if e2 is e:
+                    break
+                e = e2
+            acq = e.mentions_call(L.LOCK_ACQ)
+            from_counter = acq is not None and acq.b and acq.b[0].strip().show().endswith('.transaction_counter')
+            srcs = sorted(set(x.b for x in e.walk() if x.k == 'field' and isinstance(x.b, str) and x.b.startswith('persistent_state::')
+                              and not re.search(r'Mutex<|RwLock<|Arc<', prog.field_ty(*x.b.rsplit('::', 1)) or '')))
+            problems = []
+            if not from_counter and not srcs:
+                problems.append('its source cannot be identified (%s)' % e.brief(120))
+            for fld in ([] if from_counter and not srcs else srcs):
+                adt, fname = fld.rsplit('::', 1)
+                for wb, wbi, kind, thing in L.field_writes(prog, adt, fname):
+                    if wb.root.startswith(startup) or wb.root in startup:
+                        continue
+                    if kind == 'aggregate':
+                        problems.append('%s is re-created in %s (line %s): %s restarts from its initial value' % (
+                            adt.rsplit('::', 1)[-1], wb.id.rsplit('::', 1)[-1], thing.get('ln'), fname))
+                        continue
+                    if kind == 'mut-borrow':
+                        problems.append('&mut %s handed out in %s (line %s)' % (fname, wb.id.rsplit('::', 1)[-1], thing.get('ln')))
+                        continue
+                    if kind == 'call-dest':
+                        cs = F.CallSite(wb, wbi, thing)
+                        v = F.Expr('call', cs.callee, [F.Expr.of_operand(wb, a, 20) for a in cs.args], cs)
+                    else:
+                        v = F.Expr.of_rvalue(wb, thing['r'], 20)
+                    vs = v.strip()
+                    mono = (vs.k == 'bin' and vs.a == 'Add' and fname in vs.b.show() and (vs.c.const_value() or 0) >= 0) or \
+                           (vs.k == 'call' and re.search(r'::max$', vs.a) and any(fname in a.show() for a in vs.b))
+                    if not mono:
+                        raised = False
+                        for c in F.dominating_conds(wb, wbi):
+                            if c.kind == 'cmp' and ((c.op in ('Gt', 'Ge') and c.lhs.strip().show() == vs.show() and fname in c.rhs.show()) or
+                                                    (c.op in ('Lt', 'Le') and c.rhs.strip().show() == vs.show() and fname in c.lhs.show())):
+                                raised = True
+                        if not raised:
+                            problems.append('%s = %s in %s (line %s) is not raise-only' % (fname, vs.brief(60), wb.id.rsplit('::', 1)[-1], thing.get('ln')))
+                # whole-value overwrite of the owner outside start-up (`*self = Self::new(..)`)
+                short = adt.rsplit('::', 1)[-1]
+                for wb in bodies:
+                    if wb.root.startswith(startup):
+                        continue
+                    for wbi, wsi, ws in wb.stmts():
+                        d = ws['d']
+                        if len(d) == 2 and d[1] == '*' and re.fullmatch(r'&mut (persistent_state::)?%s' % re.escape(short), wb.local_ty(d[0]) or ''):
+                            problems.append('%s is overwritten as a whole in %s (line %s): %s restarts from its constructor value' % (
+                                short, wb.id.rsplit('::', 1)[-1], ws.get('ln'), fname))
+                    for wbi, t in wb.terms():
+                        d = t.get('d') if t['k'] == 'call' else None
+                        if d and len(d) == 2 and d[1] == '*' and re.fullmatch(r'&mut (persistent_state::)?%s' % re.escape(short), wb.local_ty(d[0]) or ''):
+                            problems.append('%s is overwritten as a whole in %s (line %s): %s restarts from its constructor value' % (
+                                short, wb.id.rsplit('::', 1)[-1], t.get('ln'), fname))
+            ctx.ob('HEADER-ID', 'header-id-source@%s' % b.id, not problems, b.where(st.get('ln')),
+                   ('the snapshot header id is read from the transaction_counter mutex under its lock' if from_counter and not srcs else
+                    'the snapshot header id is read from %s, all of whose writers are raise-only' % ', '.join(srcs)) if not problems else
+                   ('the snapshot header id is read from %s, which can move backwards: %s — after a restart from that snapshot the '
+                    'transaction counter moves backwards' % (', '.join(srcs) or e.brief(80), '; '.join(problems[:3]))), entry=b.root)
+    ctx.floor('HEADER-ID', 1)
 
 
 def _runs_before_replay(prog, b):
